@@ -490,6 +490,23 @@ impl Exec for IovecExec {
                 }
                 let Some(tok) = self.brefs.get_mut(bi).and_then(|x| x.take()) else { bad!() };
                 touched = Some(i);
+                if tok.len() != bytes.len() {
+                    // a source of the wrong size, for ANY token (own, foreign, stale, empty): a documented
+                    // panic; `backfill_or_panic` compares the sizes before it looks anything up, so the
+                    // iovec must be exactly as it was (a pending placeholder stays pending and
+                    // invisible).  Catch it here and keep the case going.
+                    so.tags.push("backfill_wrong_size".into());
+                    let tok_len = tok.len();
+                    let v = self.iovs[i].as_mut().unwrap();
+                    let r = std::panic::catch_unwind(std::panic::AssertUnwindSafe(|| v.backfill_or_panic(tok, &bytes)));
+                    if r.is_ok() {
+                        so.violations.push(format!("C03 v{} backfill_or_panic accepted a {}-byte source for a {}-byte placeholder", i, bytes.len(), tok_len));
+                        self.shadows[i].unknown = true;
+                    }
+                    so.obs.push("R panicked".into());
+                    self.describe(&mut so, touched);
+                    return so;
+                }
                 if self.bref_owner[bi] != i {
                     // foreign token: whatever happens, the shadow cannot predict it
                     self.shadows[i].unknown = true;
